@@ -437,6 +437,7 @@ pub fn gen_roller(rng: &mut Rng, tier: Tier, allow_special: bool) -> RollerSpec 
     let mut kinds = vec![PatKind::Name, PatKind::Name, PatKind::Dir, PatKind::Repeated, PatKind::Env];
     if allow_special {
         kinds.push(PatKind::SecondMount);
+        kinds.push(PatKind::DirSplit);
         if cfg!(feature = "gzip") {
             kinds.push(PatKind::Gz);
             kinds.push(PatKind::Gz);
@@ -474,6 +475,7 @@ pub fn gen_pre(rng: &mut Rng, roller: &RollerSpec) -> (Option<Vec<u32>>, Vec<(u3
 fn gen_trigger(rng: &mut Rng, profile: &str) -> TriggerSpec {
     match profile {
         "C06" => TriggerSpec::Size { limit: gen_limit(rng) },
+        "C06-fault" => TriggerSpec::Size { limit: *rng.pick(&[0u64, 10, 40, 100, 100, 300, 1024]) },
         "C17" => TriggerSpec::OnStartUp { min_size: *rng.pick(&[0u64, 1, 1, 2, 10, 50, 200, 1024, 1025]) },
         "C08" | "C08-obst" => match rng.weighted(&[5, 3, 1, 1]) {
             0 => TriggerSpec::Size { limit: *rng.pick(&[0u64, 10, 40, 100, 100, 300, 1024]) },
@@ -617,7 +619,7 @@ pub fn generate(rng: &mut Rng, tier: Tier, profile: &str) -> Scn {
     let mut phases = phases;
     let mut append = append;
     let mut roller = roller;
-    if profile.starts_with("C08") {
+    if profile.starts_with("C08") || profile == "C06-fault" {
         if rng.chance(1, 3) {
             append = false;
         }
@@ -893,6 +895,15 @@ pub fn setup_tree(scn: &Scn, names: &Names) -> Model {
     fs::create_dir_all(names.root.join("log")).unwrap();
     fs::create_dir_all(names.root.join("arch")).unwrap();
     let managed = model.managed();
+    if let (Some(split), RollerSpec::Fixed { base, count, .. }) = (&names.split_root, &scn.roller) {
+        for i in *base..=*base + *count {
+            if i % 2 == 1 {
+                let real = split.join(format!("d{}", i));
+                fs::create_dir_all(&real).unwrap();
+                let _ = std::os::unix::fs::symlink(&real, names.root.join("arch").join(i.to_string()));
+            }
+        }
+    }
     // oldest first for the stream: highest index first
     let mut archs: Vec<(usize, &(u32, Vec<u32>))> = scn.pre_archives.iter().enumerate().collect();
     archs.sort_by_key(|(_, (i, _))| std::cmp::Reverse(*i));
@@ -940,7 +951,7 @@ pub fn setup_tree(scn: &Scn, names: &Names) -> Model {
 pub fn execute(scn: &Scn, opts: &ExecOpts) -> Outcome {
     let mut out = Outcome::default();
     let scratch = Scratch::new("r");
-    let root2 = if matches!(scn.roller, RollerSpec::Fixed { pat: PatKind::SecondMount, .. }) {
+    let root2 = if matches!(scn.roller, RollerSpec::Fixed { pat: PatKind::SecondMount | PatKind::DirSplit, .. }) {
         fsutil::second_mount_base().map(|b| {
             let p = b.join("r");
             let _ = fs::remove_dir_all(&p);
